@@ -50,6 +50,33 @@ Fixpoint matches_next (fuel : nat) (st : mstate) : option item * mstate :=
       end
   end.
 
+(* CaptureMatches::next (lib.rs:357-394) is written separately from Matches::next; after the
+   captures_iter repair it computes the same flag and calls the same search. *)
+Fixpoint cmatches_next (fuel : nat) (st : mstate) : option item * mstate :=
+  if tlen <? last_end st then (None, st) else
+  let flag := match last_match st with
+              | Some lm => if lm <? last_end st then true else false
+              | None => false
+              end in
+  match search (last_end st) flag with
+  | SErr e => (Some (ItErr e), {| last_end := tlen + 1; last_match := last_match st |})
+  | SNone => (None, st)
+  | SSome saves =>
+      match span_of saves with
+      | None => (Some (ItErr EPanicked), {| last_end := tlen + 1; last_match := last_match st |})
+      | Some (a, b) =>
+          if a =? b then
+            let le := next_utf8 tx b in
+            if match last_match st with Some lm => lm =? b | None => false end then
+              match fuel with
+              | 0 => (Some (ItErr EFuel), st)
+              | S f => cmatches_next f {| last_end := le; last_match := last_match st |}
+              end
+            else (Some (ItOk a b saves), {| last_end := le; last_match := Some b |})
+          else (Some (ItOk a b saves), {| last_end := b; last_match := Some b |})
+      end
+  end.
+
 Definition next_fuel (st : mstate) : nat := tlen + 2 - last_end st.
 
 Definition mnext (st : mstate) := matches_next (next_fuel st) st.
@@ -61,6 +88,15 @@ Fixpoint collect (n : nat) (st : mstate) : list item :=
   | S n' => match mnext st with
             | (None, _) => []
             | (Some it, st') => it :: collect n' st'
+            end
+  end.
+
+Fixpoint ccollect (n : nat) (st : mstate) : list item :=
+  match n with
+  | 0 => []
+  | S n' => match cmatches_next (next_fuel st) st with
+            | (None, _) => []
+            | (Some it, st') => it :: ccollect n' st'
             end
   end.
 
@@ -127,6 +163,11 @@ Definition seg (lo hi : nat) : option (list nat) :=
   if (lo <=? hi) && (hi <=? tlen) && is_boundary tx lo && is_boundary tx hi
   then Some (slice tx lo hi) else None.
 
+Definition cnext (st : mstate) := cmatches_next (next_fuel st) st.
+
+(* [nx]: the iterator the path uses — Matches (fast path, no expansion) or CaptureMatches *)
+Variable nx : mstate -> option item * mstate.
+
 (* the loop `for (i, m) in it` after the first item has been peeked *)
 Fixpoint replace_loop (fuel : nat) (limit i : nat) (cur : option item) (st : mstate)
          (last : nat) (acc : list nat) : rres :=
@@ -143,14 +184,14 @@ Fixpoint replace_loop (fuel : nat) (limit i : nat) (cur : option item) (st : mst
             match fuel with
             | 0 => RErr EFuel
             | S f =>
-                let '(nx, st') := mnext st in
-                replace_loop f limit (S i) nx st' b (acc ++ s ++ rep saves)
+                let '(it, st') := nx st in
+                replace_loop f limit (S i) it st' b (acc ++ s ++ rep saves)
             end
         end
   end.
 
 Definition try_replacen (limit : nat) : rres :=
-  match mnext m_init with
+  match nx m_init with
   | (None, _) => RBorrowed
   | (first, st) => replace_loop (tlen + 3) limit 0 first st 0 []
   end.
